@@ -371,6 +371,17 @@ func (s *dsSim) afterStep(what string) {
 			s.find("C13", "C13/wire/window-exceeded", fmt.Sprintf("%d blocks requested and unprocessed after %s", n, what))
 		}
 	}
+	// buffered-bytes accounting of the request queue (C13), also under adversarial deliveries
+	q := s.e.node.state.VerifQueue()
+	sum := 0
+	for _, rq := range q.Requested {
+		if rq.HasBody {
+			sum += rq.Size
+		}
+	}
+	if q.PendingSize != sum {
+		s.find("C13", "C13/wire/bytes-accounting", fmt.Sprintf("after %s the buffered-bytes counter is %d, the buffered bodies sum to %d", what, q.PendingSize, sum))
+	}
 	if s.pol.probeEvery {
 		s.probeChain(what)
 	}
